@@ -114,11 +114,14 @@ def streams(rng, tier):
             out.append(Case("law-decompose", "law.r.decompose", [s, expected_json(R, mt)], kind="law"))
         if rng.random() < 0.5:
             out.append(Case("law-roundtrip", "law.r.roundtrip", [s], kind="law"))
+        if rng.random() < 0.4:
+            out.append(Case("str-roundtrip", "r.rt", [s]))
         if rng.random() < 0.35:
             t = G.mutate(rng, s)
             if not outside_model(t):
                 out.append(Case("mutated", "r.parse", [t]))
                 if rng.random() < 0.3: out.append(Case("law-roundtrip", "law.r.roundtrip", [t], kind="law"))
+                if rng.random() < 0.3: out.append(Case("str-roundtrip", "r.rt", [t]))
     # the D7 class: a '===' clause immediately followed by a comma
     for _ in range(300 if q else 6000):
         R = G.rand_req(rng, url_p=0, marker_p=0.2)
@@ -132,6 +135,7 @@ def streams(rng, tier):
         E = json.loads(expected_json(R, mt)); E["d7"] = [i]
         out.append(Case("d7-class", "law.r.decompose", [s, json.dumps(E)], kind="law"))
         out.append(Case("d7-class", "r.parse", [s]))
+        out.append(Case("d7-class", "r.rt", [s]))
         out.append(Case("law-roundtrip", "law.r.roundtrip", [s], kind="law"))
     # related pairs for == / hash
     for _ in range(2500 if q else 60000):
@@ -162,6 +166,7 @@ def streams(rng, tier):
         out.append(Case("exhaustive-clause", "r.parse", ["a==" + t]))
     for s in FIXED:
         out.append(Case("fixed", "r.parse", [s]))
+        out.append(Case("fixed", "r.rt", [s]))
         out.append(Case("law-roundtrip", "law.r.roundtrip", [s], kind="law"))
     return out
 
